@@ -78,7 +78,10 @@ P3 = Pose('P3', ((1, 1, 0), (1, 0, 1), (-1, 1, 1)), 1, _T)              # obliqu
 # the xy-plane goes to an upright plane whose horizontal direction is (9,7)/4: direction ratios such as 7/9 do not
 # multiply back exactly in floating point (fl(fl(7/9)*9) != 7), which exposes eliminations without proper pivoting
 P4 = Pose('P4', ((9, 0, 7), (7, 0, -9), (0, 4, 0)), F(1, 4), (F(-1, 4), F(-5, 2), F(-9, 4)))
-POSES = {'P0': P0, 'PZ': PZ, 'P1': P1, 'P2': P2, 'P3': P3, 'P4': P4}
+# same idea with horizontal direction (11,15)/4: fl(fl(15/11)*11*m/4) != 15*m/4 already for m = 1, 2, 4, so the
+# noise appears for the shortest lattice directions
+P5 = Pose('P5', ((11, 0, 15), (15, 0, -11), (0, 4, 0)), F(1, 4), (F(-1, 4), F(-5, 2), F(-9, 4)))
+POSES = {'P0': P0, 'PZ': PZ, 'P1': P1, 'P2': P2, 'P3': P3, 'P4': P4, 'P5': P5}
 
 
 def poses(tier):
